@@ -19,9 +19,11 @@ class Cfg:
     def __init__(self, K=2, SL=3, depth=2, ints="full", strs="sym", floats="sym", hints=False):
         self.K, self.SL, self.depth, self.ints, self.strs, self.hints = K, SL, depth, ints, strs, hints
         self.floats = floats
+        self.bytes = "sym"
 
     def but(self, **kw):
         c = Cfg(self.K, self.SL, self.depth, self.ints, self.strs, self.floats, self.hints)
+        c.bytes = self.bytes
         for k, v in kw.items():
             setattr(c, k, v)
         return c
@@ -49,7 +51,7 @@ def ann(node, names, cfg, depth=None):
     if k in ("float", "double"):
         return "float" if cfg.floats == "sym" else "int"
     if k in ("bytes", "fixed"):
-        return "bytes"
+        return "bytes" if cfg.bytes == "sym" else "int"
     if k == "string":
         return "str" if cfg.strs == "sym" else "int"
     if k == "array":
@@ -83,17 +85,70 @@ class Hints:
         return self.hs[self.i - 1] if self.i <= len(self.hs) else 0
 
 
-def build(node, names, v, cfg, depth=None, hints=None):
+BPOOL = [b"", b"\x00", b"ab", b"\xff\xfe\xfd"]
+IPOOL = [0, -1, 64, (1 << 31) - 1, -(1 << 31)]
+LPOOL = [0, -65, 1 << 31, (1 << 63) - 1, -(1 << 63)]
+
+NOMUT = object()
+
+MUTANTS = [None, True, 0, 1 << 31, -(1 << 31) - 1, 1 << 63, 1.5, "s", b"b", b"four", "NOSYM", [], {}, {1: 2},
+           ("x", 1), [None], {"k": "v"}, bytearray(b"ab"), (1, 2)]
+DELETE = len(MUTANTS)  # kind == DELETE: drop the record field at that position
+DELETED = object()
+
+
+class Mut:
+    """one mutation: the node visited as number `pos` (pre-order) is replaced by MUTANTS[kind],
+    or, for kind == DELETE, the record field whose value is node number `pos` is omitted"""
+
+    def __init__(self, pos, kind):
+        self.pos, self.kind, self.n, self.applied = pos, kind, 0, False
+
+    def visit(self):
+        i = self.n
+        self.n += 1
+        if i == self.pos:
+            self.applied = True
+            if self.kind == DELETE:
+                return DELETED
+            for j, x in enumerate(MUTANTS):
+                if self.kind == j:
+                    return x
+            raise OutOfDomain()
+        return NOMUT
+
+
+def _nodel(x):
+    if x is DELETED:
+        raise OutOfDomain()  # deletion only makes sense for a record field
+    return x
+
+
+def build(node, names, v, cfg, depth=None, hints=None, mut=None):
+    if mut is not None:
+        r = mut.visit()
+        if r is not NOMUT:
+            return r
+        return _build(node, names, v, cfg, depth, hints, mut)
+    return _build(node, names, v, cfg, depth, hints, None)
+
+
+def _build(node, names, v, cfg, depth=None, hints=None, mut=None):
     depth = cfg.depth if depth is None else depth
     k = node["k"]
     if k == "ref":
         if depth <= 0:
             raise OutOfDomain()
-        return build(names[node["name"]], names, v, cfg, depth - 1, hints)
+        return _build(names[node["name"]], names, v, cfg, depth - 1, hints, mut)
     if k == "null":
         return None
     if k == "boolean":
         return v
+    if k in ("int", "long") and cfg.ints == "pool":
+        for i, x in enumerate(IPOOL if k == "int" else LPOOL):
+            if v == i:
+                return x
+        raise OutOfDomain()
     if k == "int":
         lo, hi = (-64, 63) if cfg.ints == "small" else (-(1 << 31), (1 << 31) - 1)
         if not (lo <= v <= hi):
@@ -110,6 +165,12 @@ def build(node, names, v, cfg, depth=None, hints=None):
                 raise OutOfDomain()  # NaN: compared by class at layer 1
             return v
         for i, x in enumerate(FPOOL):  # explicit chain: the result stays a concrete number
+            if v == i:
+                return x
+        raise OutOfDomain()
+    if k in ("bytes", "fixed") and cfg.bytes == "pool":
+        pool = BPOOL if k == "bytes" else [bytes(range(node["size"])), b"\xff" * node["size"]]
+        for i, x in enumerate(pool):
             if v == i:
                 return x
         raise OutOfDomain()
@@ -137,16 +198,16 @@ def build(node, names, v, cfg, depth=None, hints=None):
     if k == "array":
         if len(v) > cfg.K:
             raise OutOfDomain()
-        return [build(node["items"], names, x, cfg, depth, hints) for x in v]
+        return [_nodel(build(node["items"], names, x, cfg, depth, hints, mut)) for x in v]
     if k == "map":
         if len(v) > cfg.K:
             raise OutOfDomain()
-        return {f"k{i}": build(node["values"], names, x, cfg, depth, hints) for i, x in enumerate(v)}
+        return {f"k{i}": _nodel(build(node["values"], names, x, cfg, depth, hints, mut)) for i, x in enumerate(v)}
     if k == "union":
         i = v[0]
         if not (0 <= i < len(node["branches"])):
             raise OutOfDomain()
-        val = build(node["branches"][i], names, v[1 + i], cfg, depth, hints)
+        val = _nodel(build(node["branches"][i], names, v[1 + i], cfg, depth, hints, mut))
         if hints is None:
             return val
         h = hints.next()
@@ -178,7 +239,10 @@ def build(node, names, v, cfg, depth=None, hints=None):
                 present, x = x
                 if not present:
                     continue
-            d[f["name"]] = build(f["t"], names, x, cfg, depth, hints)
+            val = build(f["t"], names, x, cfg, depth, hints, mut)
+            if val is DELETED:
+                continue
+            d[f["name"]] = val
         return d
     raise AssertionError(k)
 
@@ -195,6 +259,8 @@ def sample(node, names, cfg, rng, depth=None, big=False):
         return None
     if k == "boolean":
         return rng.random() < 0.5
+    if k in ("int", "long") and cfg.ints == "pool":
+        return rng.randrange(len(IPOOL))
     if k == "int":
         if cfg.ints == "small":
             return rng.randint(-64, 63)
@@ -207,6 +273,8 @@ def sample(node, names, cfg, rng, depth=None, big=False):
         if cfg.floats == "sym":
             return rng.choice([0.0, -0.0, 1.5, -2.25, 1e10, 0.1 if k == "double" else 0.5])
         return rng.randrange(len(FPOOL))
+    if k in ("bytes", "fixed") and cfg.bytes == "pool":
+        return rng.randrange(len(BPOOL) if k == "bytes" else 2)
     if k == "bytes":
         return bytes(rng.randrange(256) for _ in range(rng.randint(0, cfg.SL)))
     if k == "string":
